@@ -2331,6 +2331,15 @@ def strip_sites(e):
     return tuple(strip_sites(x) for x in e)
 
 
+def agg_field(e, name, default=None):
+    """the operand of a struct / variant aggregate ('agg', ('adt', Type, Variant, field names), operands) that initialises field `name`"""
+    if isinstance(e, tuple) and len(e) == 3 and e[0] == 'agg' and isinstance(e[1], tuple) and len(e[1]) > 3 and name in e[1][3]:
+        i = list(e[1][3]).index(name)
+        if i < len(e[2]):
+            return e[2][i]
+    return default
+
+
 def fmt(e, depth=0):
     """Readable rendering of an expression."""
     if not isinstance(e, tuple) or not e:
